@@ -223,11 +223,9 @@ func (lex *Lexer) finishText() (flushed bool, needMore bool, err error) {
 	case LexerStrLit, LexerStrEscaped, LexerRuneLit, LexerRuneEscaped:
 		return false, true, nil
 	case LexerUnquote:
-		// a '~' whose next rune has not arrived: it is not going
-		// to be '~@', so it is the unquote operator.
-		lex.AppendToken(lex.Token(TokenTilde, ""))
-		lex.state = LexerNormal
-		return true, false, nil
+		// a '~' whose next rune has not arrived: '~' or '~@' is not
+		// decided yet, and either needs an operand.
+		return false, true, nil
 	case LexerNormal:
 		if lex.buffer.Len() == 0 {
 			return false, false, nil
@@ -518,6 +516,11 @@ top:
 		if err != nil {
 			return err
 		}
+		if r == '*' {
+			// "**": the second asterisk may be the one that
+			// closes the comment ("/* c **/").
+			return nil
+		}
 		lexer.state = LexerCommentBlock
 		goto writeRuneToBuffer
 
@@ -618,14 +621,17 @@ top:
 		return nil
 
 	case LexerUnquote:
+		lexer.state = LexerNormal
 		if r == '@' {
 			lexer.AppendToken(lexer.Token(TokenTildeAt, ""))
-		} else {
-			lexer.AppendToken(lexer.Token(TokenTilde, ""))
-			lexer.buffer.WriteRune(r)
+			return nil
 		}
-		lexer.state = LexerNormal
-		return nil
+		lexer.AppendToken(lexer.Token(TokenTilde, ""))
+		// the rune after the '~' starts the operand: lex it like any
+		// other rune. (Written straight into the atom buffer, a
+		// bracket, quote or blank became part of an atom: ~(b c)
+		// could not be written, (a ~) swallowed its closing bracket.)
+		return lexer.LexNextRune(r)
 	case LexerFreshAssignOrColon:
 		lexer.state = LexerNormal
 
